@@ -14,6 +14,8 @@ type C11Case struct {
 	Plant int    `json:"plant"` // marker carrying vf_fail (-1: none)
 	KSel  int    `json:"ksel"`  // selects the failing invocation: k = 1 + KSel mod N (0: no fault)
 	Twice bool   `json:"twice,omitempty"`
+	// FailAt, when > 0, is the explicit failing invocation (used by the grid; overrides KSel)
+	FailAt int `json:"fail_at,omitempty"`
 }
 
 func genC11(t *rapid.T) any {
@@ -43,8 +45,8 @@ func checkC11(c *C11Case) Result {
 		c = &C11Case{W: c.W, Plant: -1, Twice: c.Twice}
 	}
 	sql := w.SQL(c.Plant, "")
-	failAt := int64(0)
-	if c.Plant >= 0 && c.KSel > 0 {
+	failAt := int64(c.FailAt)
+	if c.Plant >= 0 && c.KSel > 0 && c.FailAt == 0 {
 		injReset(0, 0)
 		probe := Run(val.CopyMap(w.Doc), sql, w.opts())
 		res.Execs++
@@ -93,6 +95,50 @@ func checkC11(c *C11Case) Result {
 	return res
 }
 
+// c11Grid (runs once per check, before the random search): every wide construct x 4 generator examples
+// with fixed seeds x (no fault, and every fault position x every invocation index k).
+func c11Grid(st *Stats) (string, any) {
+	seen := map[string]bool{}
+	runs := 0
+	for _, construct := range wideConstructs {
+		if seen[construct] {
+			continue
+		}
+		seen[construct] = true
+		gen := rapid.Custom(func(t *rapid.T) *WideQ { return genWide(t, []string{construct}) })
+		for seed := 0; seed < 4; seed++ {
+			w := gen.Example(seed)
+			cases := []*C11Case{{W: w, Plant: -1}, {W: w, Plant: -1, Twice: true}}
+			for plant := range w.markers() {
+				injReset(0, 0)
+				probe := Run(val.CopyMap(w.Doc), w.SQL(plant, ""), w.opts())
+				if probe.Panic != "" {
+					continue
+				}
+				n := int(injCalls())
+				if n > 24 {
+					n = 24
+				}
+				for k := 1; k <= n; k++ {
+					cases = append(cases, &C11Case{W: w, Plant: plant, FailAt: k})
+				}
+			}
+			for _, c := range cases {
+				r := checkC11(c)
+				runs++
+				if r.Violation != "" {
+					return "construct x position x k grid: " + r.Violation, c
+				}
+			}
+		}
+	}
+	st.mu.Lock()
+	st.Extra["grid_constructs"] = float64(len(seen))
+	st.Extra["grid_runs"] = float64(runs)
+	st.mu.Unlock()
+	return "", nil
+}
+
 func init() {
 	Register(&Prop{
 		ID:    "C11",
@@ -110,6 +156,7 @@ func init() {
 		Gen:      genC11,
 		New:      func() any { return &C11Case{} },
 		Check:    func(c any) Result { return checkC11(c.(*C11Case)) },
+		Extra:    c11Grid,
 		Quick:    4000,
 		Thorough: 250000,
 	})
